@@ -38,6 +38,21 @@ def _job_chunk(jobs):
             from sqllineage.config import SQLLineageConfig
             with SQLLineageConfig(DEFAULT_SCHEMA=j["ds"]):
                 o = d.tables(sql, dia)
+        elif mech == "served_scoped":
+            # the web application asked inside the scope: POST /lineage on the WSGI app; its table-level export projected onto
+            # (tables with an outgoing edge or no edge at all, tables with an incoming edge)
+            from sqllineage.config import SQLLineageConfig
+            from . import drive
+            try:
+                from sqllineage.core.metadata.dummy import DummyMetaDataProvider
+                with SQLLineageConfig(DEFAULT_SCHEMA=j["ds"]):
+                    dag, _ = drive.served_exports(sql, dia, DummyMetaDataProvider())
+                nodes = {x["data"]["id"] for x in dag if "source" not in x["data"]}
+                edges = [(x["data"]["source"], x["data"]["target"]) for x in dag if "source" in x["data"]]
+                tg = {b for _, b in edges}
+                o = {"reads": sorted({a for a, _ in edges} | (nodes - tg if not edges else set())), "target": sorted(tg), "mid": [], "exc": "none"}
+            except Exception as e:  # noqa
+                o = {"reads": [], "target": [], "mid": [], "exc": type(e).__name__}
         else:
             o = d.tables(sql, dia)
         o["sql"] = sql
